@@ -147,7 +147,7 @@ type Query struct {
 // Case is a tree and the queries put to it.
 type Case struct {
 	App     uint32     `json:"app"`
-	Build   int        `json:"build"` // 0 AddAVP(ToDiamAVP), 1 Message.NewAVP by number, 2 Message.NewAVP by name
+	Build   int        `json:"build"` // 0 AddAVP(ToDiamAVP), 1 Message.NewAVP by number, 2 Message.NewAVP by name, 3 groups created empty and filled afterwards (top-down), 4 AVP struct literals (Length never set)
 	AVPs    []*gen.AVP `json:"avps"`
 	Queries []Query    `json:"queries"`
 }
@@ -217,6 +217,12 @@ func build(c Case, p *dict.Parser, cat *gen.Catalog) (*diam.Message, error) {
 	for _, a := range c.AVPs {
 		b := a.ToDiamAVP()
 		switch c.Build {
+		case 3:
+			m.AddAVP(a.Build(gen.BuildOpts{TopDown: true}))
+			continue
+		case 4:
+			m.AddAVP(literalAVP(a))
+			continue
 		case 1:
 			if _, err := m.NewAVP(b.Code, b.Flags, b.VendorID, b.Data); err != nil {
 				return nil, err
@@ -237,6 +243,22 @@ func build(c Case, p *dict.Parser, cat *gen.Catalog) (*diam.Message, error) {
 		}
 	}
 	return m, nil
+}
+
+// literalAVP builds the tree from AVP struct literals, the way Message.Marshal and some callers
+// do: the Length field (meaningful only for decoded AVPs) stays zero.
+func literalAVP(a *gen.AVP) *diam.AVP {
+	out := &diam.AVP{Code: a.Code, Flags: a.Flags, VendorID: a.Vendor}
+	if a.V.T == gen.TGrouped {
+		g := &diam.GroupedAVP{}
+		for _, c := range a.Children {
+			g.AVP = append(g.AVP, literalAVP(c))
+		}
+		out.Data = g
+		return out
+	}
+	out.Data = a.V.ToDatatype()
+	return out
 }
 
 func describe(avps []*diam.AVP) string {
@@ -862,7 +884,7 @@ func genCase(t *rapid.T) Case {
 	if err != nil {
 		t.Fatalf("harness: %v", err)
 	}
-	c := Case{App: rapid.SampledFrom(apps).Draw(t, "app").ID, Build: rapid.IntRange(0, 2).Draw(t, "build")}
+	c := Case{App: rapid.SampledFrom(apps).Draw(t, "app").ID, Build: rapid.IntRange(0, 4).Draw(t, "build")}
 	var groups, scalars []sym
 	for _, s := range symsFor(c.App, alphabet) {
 		if s.Grouped {
@@ -969,7 +991,7 @@ func TestC20Canonical(t *testing.T) {
 		{Op: "first", Path: []Elem{n(264)}, Vendor: wild, Why: "canonical"},
 		{Op: "first", Path: []Elem{{Form: "name", Name: noSuchName, NoSuchName: true}}, Vendor: wild, Why: "canonical"},
 	}}
-	for b := 0; b <= 2; b++ {
+	for b := 0; b <= 4; b++ {
 		c.Build = b
 		prop.One(t, c)
 	}
